@@ -87,6 +87,20 @@ def _mask(position, seed):
     return h[0] & 1 == 1
 
 
+class DerivedSolverError(pulp.PulpSolverError):
+    """A solver back-end's own subclass of PulpSolverError."""
+
+
+def solver_error(fault, text):
+    """The PulpSolverError a failing solver raises: with a message, without any argument, or a subclass."""
+    variant = fault.get("exc", "message")
+    if variant == "noargs":
+        return pulp.PulpSolverError()
+    if variant == "subclass":
+        return DerivedSolverError(text, 1)
+    return pulp.PulpSolverError(text)
+
+
 class SimSolver(pulp.LpSolver):
     """API-level stub solver (L1).  Its behaviour for the next solve is env.fault."""
 
@@ -116,7 +130,7 @@ class SimSolver(pulp.LpSolver):
         if kind == "raise_before":
             events.fired("api.raise_before")
             env.end_solve(info, delivered=False, how="raise")
-            raise pulp.PulpSolverError("sim: injected failure before solving")
+            raise solver_error(fault, "sim: injected failure before solving")
         model = zero_one.from_pulp(lp)
         result = env.solve_model(model, info)
         variables = [v for v in lp.variables() if v.name != "__dummy"]
@@ -134,7 +148,7 @@ class SimSolver(pulp.LpSolver):
             events.fired("api.raise_after_partial")
             info["partial_assigned"] = n
             env.end_solve(info, delivered=False, how="raise")
-            raise pulp.PulpSolverError("sim: injected failure after a partial result")
+            raise solver_error(fault, "sim: injected failure after a partial result")
         if kind == "raise_after_optimal":
             # a solver that fails late: it has already recorded an Optimal status (and none, some or all of the
             # correct values) on the problem when it raises PulpSolverError, e.g. while copying the solution
@@ -148,7 +162,7 @@ class SimSolver(pulp.LpSolver):
             events.fired("api.raise_after_optimal." + assign)
             info["partial_assigned"] = n
             env.end_solve(info, delivered=False, how="raise-late")
-            raise pulp.PulpSolverError("sim: injected failure after the status was recorded")
+            raise solver_error(fault, "sim: injected failure after the status was recorded")
         if kind in STATUS_OF_KIND:
             assign = fault.get("assign", "none")
             # stale / misleading values: every region claims the *wrong* levels, so that a reader
